@@ -543,3 +543,31 @@ fn std_ipv6_text_alphabet() {
         }
     }
 }
+
+// ---- prelude: u16::from_str at the 16-bit boundary (bounded: digit strings of at most 6 bytes over
+//      {'0','3','5','6','9'}: 65535 / 65536 / 99999 / 000000 / 655350 ...) ---------------------------------
+#[kani::proof]
+#[kani::unwind(9)]
+fn std_u16_parse_overflow() {
+    let len: usize = kani::any();
+    kani::assume(len >= 1 && len <= 6);
+    let mut buf = [b'0'; 6];
+    let mut i = 0;
+    while i < 6 {
+        let k: u8 = kani::any();
+        kani::assume(k < 5);
+        buf[i] = [b'0', b'3', b'5', b'6', b'9'][k as usize];
+        i += 1;
+    }
+    let s = std::str::from_utf8(&buf[..len]).unwrap();
+    let mut v: u64 = 0;
+    let mut j = 0;
+    while j < 6 {
+        if j < len { v = v * 10 + (buf[j] - b'0') as u64; }
+        j += 1;
+    }
+    match s.parse::<u16>() {
+        Ok(x) => assert!(v <= 65535 && x as u64 == v),
+        Err(_) => assert!(v > 65535),
+    }
+}
